@@ -12,7 +12,9 @@ def cfg(mode, maxmut=2):
 
 
 def lines_sorted(text):
-    return sorted(l.strip().rstrip(",").strip() for l in text.split("\n"))
+    # the text itself: members are displayed in the order of their names and nested values are indented (since the
+    # displays were made deterministic), so equal values have to give the same characters
+    return text
 
 
 def tname(t):
